@@ -706,6 +706,13 @@ P("delayed_source_reordered_selection", lambda t: t.dd.from_delayed(t.df.to_dela
 P("delayed_source_gapped_selection_sum", lambda t: t.dd.from_delayed(t.df.to_delayed(), meta=t.df._meta).partitions[[0, 2]].u.sum() if t.lazy else t.df.u.sum(), dask_only=True)
 
 
+# len() of 2-d operations whose operands have different rows (the optimizer once ping-ponged between Len(X) and Len(X.index))
+P("len_frame_plus_filtered_frame", lambda t: (t.df[["u", "f"]] + t.df[["u", "f"]][t.df.u > 5]).shape[0], needs_range=True)
+P("len_assign_filtered_column", lambda t: t.df[["u", "f"]].assign(z=t.df[t.df.u > 5].f).shape[0], needs_range=True)
+P("len_cumsum_plus_filtered", lambda t: (t.df[["u", "f"]].cumsum() + t.df[["u", "f"]][t.df.u > 5]).shape[0], needs_range=True)
+P("frame_plus_filtered_frame", lambda t: t.df[["u", "f"]] + t.df[["u", "f"]][t.df.u > 5], needs_range=True)
+
+
 def program_names(tags_exclude=()):
     return [n for n, p in PROGRAMS.items() if not (p.tags & set(tags_exclude))]
 
